@@ -824,8 +824,14 @@ impl Scenario for C09 {
                 (nf, Mode::Random { n, seed: rng.next_u64() })
             }
         };
-        let mut frames = Vec::new();
+        let mut frames: Vec<String> = Vec::new();
         for _ in 0..nf {
+            // a feed with stuck or zeroed timestamps repeats itself byte for byte
+            if !frames.is_empty() && rng.chance(0.08) {
+                let prev = frames[frames.len() - 1].clone();
+                frames.push(prev);
+                continue;
+            }
             let style = if rng.chance(0.5) { rng.below(12) as u8 } else { 0 };
             frames.push(hex(&gen_frame(rng, density, style)));
         }
